@@ -1,33 +1,49 @@
 """C06  Bitstruct packing is a lossless, order-preserving bijection.
 
 spec/BitStruct.tla (shapes, NBits, Layout, Pack/Unpack over bit sequences, object state machine
-with @=, <<=, _flip, clone, deepcopy, from_bits and leaf mutation), spec/BitStructMC.tla (bounded
-family of shapes), spec/BitStructTiny.tla (exhaustive object machine for a tiny shape),
-spec/BitStructTrace.tla (trace validation).
+with @=, <<=, _flip, clone, deepcopy, from_bits, default construction and leaf mutation),
+spec/BitStructMC.tla (bounded family of shapes), spec/BitStructTiny.tla (exhaustive object machine for
+a tiny shape), spec/BitStructDecl.tla (declaration histories under one class name: the type returned
+is the type declared, whatever was declared before), spec/BitStructTrace.tla (trace validation).
   1. TLC enumerates every shape of the bounded family (depth <= 3, <= 3 fields, 1-/2-dimensional
      lists with dimensions 1 or 2, leaf widths 1..3, at most K shape nodes), checks for each one the
      layout partition / field order / width / both round trips (over all bit vectors up to ExhBits
      bits) and walks the aliasing script with the spec's Step function (frame property: only the
-     destination object changes, <<= invisible until the flip).
+     destination object changes, <<= invisible until the flip, default-constructed objects share nothing).
   2. spec -> code: the case table TLC wrote (shape, nbits, layout, sample values with packed bits,
      script with the packed destination value after every step) is replayed on classes built
      through BOTH @bitstruct source in a scratch .py file and mk_bitstruct: nbits, to_bits,
      from_bits, layout by field reads, ==/!=, hash consistency, clone, deepcopy, and after every
      script step all three objects are compared (field reads and to_bits).  For tiny shapes the
      complete state graph of the object machine is dumped and every transition replayed.
+     Declaration histories: TLC enumerates every sequence of <= 3 declarations (through @bitstruct and
+     mk_bitstruct) of 7 (thorough 11) shapes that are permutations / re-typings of each other (field order
+     rotated / exchanged, leaf widths exchanged, another list dimension, nested type, nested type permuted)
+     and share ONE class name, checks HistoryIndependent / KeySound for the cache key pymtl3 uses (an
+     order-forgetting key must be rejected: canary of the model), and every maximal history is replayed on
+     the real API in one process; after EVERY declaration the class just returned is validated against the
+     TLC expectation of the declared shape (nbits, keyword and positional construction, to_bits,
+     from_bits, layout by field reads, field order) and the classes returned earlier are validated again.
   3. code -> spec: random shapes up to 1023 bits (nesting depth <= 4, lists up to 2 dimensions,
      awkward field names), random histories of all operations on three real objects; the recorded
      events (values read field by field after each call, to_bits results, measured layout, nbits,
-     ==, hash) are validated by BitStructTrace.
+     ==, hash) are validated by BitStructTrace.  Re-declaration groups: a random shape and variants of it
+     (fields permuted at the top / in a nested struct, one leaf width or list dimension changed, the types
+     of two fields exchanged, the identical declaration again) are declared one after the other under the
+     same class name through alternating routes, each returned class driving its own validated history.
   4. canaries: corrupted copies of accepted traces (swapped fields, reversed list order, flipped
      packed bit, aliasing, <<= visible early, ignored flip, wrong ==) and corrupted expectation
-     tables must be rejected.
+     tables (family and declaration) must be rejected.
 
 NOTE: _flip() of an object that has no complete pending value (never the target of <<=, or a leaf
 was replaced by a new Bits object since) raises AttributeError in pymtl3; the statement says
-nothing about it, the spec disables Flip there and the generators avoid it.  Trusted base: the
-harness reads objects field by field (getattr / list index / int(Bits)) and builds values with the
-class constructors; the packing order itself is known only to the TLA+ modules.
+nothing about it, the spec disables Flip there and the generators avoid it.  Constructing T(...) from
+list / nested-struct argument objects stores the caller's objects (plain Python reference semantics,
+not covered by the statement); only from_bits, default construction T(), clone, deepcopy, @= and <<= are
+required to produce / keep independent objects.  Every declaration history runs under its own class
+name in the one process of the check (pymtl3's class cache is process-wide and cannot be reset).
+Trusted base: the harness reads objects field by field (getattr / list index / int(Bits)) and builds
+values with the class constructors; the packing order itself is known only to the TLA+ modules.
 """
 import collections
 import concurrent.futures as cf
@@ -343,9 +359,6 @@ def _check_decl(case, cls, light=False):
     try:
         if cls.nbits != nbits:
             return [("nbits", "nbits is %r, the declared leaves sum to %d" % (cls.nbits, nbits))]
-        order = list(cls.__bitstruct_fields__)
-        if order != [f["n"] for f in shape["fs"]]:
-            out.append(("field-order", "__bitstruct_fields__ lists %s, declared %s" % (order, [f["n"] for f in shape["fs"]])))
         for val in case["vals"][:3] if light else case["vals"]:
             b, v = val["b"], val["v"]
             o = L.build_value(cls, shape, v)                      # keyword construction
@@ -370,6 +383,9 @@ def _check_decl(case, cls, light=False):
             if got != b:
                 out.append(("positional-init", "T(*fields in declared order).to_bits() gives %s, specification %s" % (got, b)))
                 break
+        order = list(cls.__bitstruct_fields__)
+        if order != [f["n"] for f in shape["fs"]]:
+            out.append(("field-order", "__bitstruct_fields__ lists %s, declared %s" % (order, [f["n"] for f in shape["fs"]])))
     except L.Structure as ex:
         out.append(("structure", str(ex)))
     except Exception as ex:  # noqa: BLE001
